@@ -135,6 +135,7 @@ def task_cands(a, env):
     C = BL.suite_cls(suite)
     pk = MB.sk_to_pk(sk)
     seen = set()
+    after_honest = set()
     # call history before the verifications (ignored results): related inputs through other entry points
     if target == "sig":
         BL.prelude(suite, pk, MB.hashed_message(suite, sk, msg), MB.DST[suite], S)
@@ -162,8 +163,23 @@ def task_cands(a, env):
             r.ev += 1
             if got != exp:
                 lbl = lbl + " (second presentation)"
+            # classes: by candidate label and by how the model says the string fails (does not decode /
+            # decodes to a point outside the subgroup / is another valid signature)
+            d_ = MB.decode_sig(c)
+            cls_ = (lbl.split(":")[0], "undecodable" if d_[0] != "ok" else "decodable")
+            if got == exp and cls_ not in after_honest and sum(1 for x in after_honest if x[1] == cls_[1]) < a.get("after_honest", 2):
+                # one string per class: the honest signature is accepted, then the refused string twice
+                after_honest.add(cls_)
+                ver = (lambda x: BL.verdict(C.Verify, pk, msg, x)) if target == "sig" else (lambda x: BL.verdict(C.PopVerify, pk, x))
+                h = ver(S)
+                g1, g2 = ver(c), ver(c)
+                r.ev += 3
+                if h is not True:
+                    got, exp, lbl = h, True, "the honest signature after " + lbl
+                elif g1 is not False or g2 is not False:
+                    got, lbl = (g1 if g1 is not False else g2), lbl + " (presented twice right after the honest signature was accepted)"
         if got != exp:
-            cls = lbl.split(":")[0]
+            cls = lbl.split(":")[0].split(" (")[0]
             kind = "rejects-honest" if exp else ("accepts-forgery" if got is True else "not-a-bool")
             r.viol("C02:%s:%s:%s:%s" % (target, suite, kind, cls), ME + ":replay",
                    {"target": target, "suite": suite, "sk": a["sk"], "msg": a["msg"], "flips": a["flips"],
